@@ -13,6 +13,17 @@ def quat_yaw(yaw):
     return Quaternion(axis=(0.0, 0.0, 1.0), radians=yaw)
 
 
+def quat_ego(ego):
+    """ego orientation Rz(yaw) * Ry(pitch) * Rx(roll); pitch / roll are optional keys of the ego description"""
+    from pyquaternion import Quaternion
+    q = Quaternion(axis=(0.0, 0.0, 1.0), radians=ego.get("yaw", 0.0))
+    if ego.get("pitch"):
+        q = q * Quaternion(axis=(0.0, 1.0, 0.0), radians=ego["pitch"])
+    if ego.get("roll"):
+        q = q * Quaternion(axis=(1.0, 0.0, 0.0), radians=ego["roll"])
+    return q
+
+
 def obj3d(d):
     """d: dict(label, x, y, z=0, yaw=0, size=(1,2,1), score=0.9, frame='base_link', pts=None, uuid=None, attributes=())"""
     from perception_eval.common.object import DynamicObject
@@ -32,7 +43,7 @@ def transforms(ego):
     from perception_eval.common.schema import FrameID
     if ego is None:
         return None
-    m = HomogeneousMatrix((ego["x"], ego["y"], ego.get("z", 0.0)), quat_yaw(ego.get("yaw", 0.0)), src=FrameID.BASE_LINK, dst=FrameID.MAP)
+    m = HomogeneousMatrix((ego["x"], ego["y"], ego.get("z", 0.0)), quat_ego(ego), src=FrameID.BASE_LINK, dst=FrameID.MAP)
     return TransformDict(m)
 
 
@@ -40,13 +51,15 @@ def ego_matrix(ego):
     from perception_eval.common.transform import HomogeneousMatrix
     from perception_eval.common.schema import FrameID
     ego = ego or dict(x=0.0, y=0.0, yaw=0.0)
-    return HomogeneousMatrix((ego["x"], ego["y"], ego.get("z", 0.0)), quat_yaw(ego.get("yaw", 0.0)), src=FrameID.BASE_LINK, dst=FrameID.MAP)
+    return HomogeneousMatrix((ego["x"], ego["y"], ego.get("z", 0.0)), quat_ego(ego), src=FrameID.BASE_LINK, dst=FrameID.MAP)
 
 
 def ego_xy(d, ego):
     """ego-relative planar position of an object description (independent re-computation)"""
     if d.get("frame", "base_link") == "base_link" or ego is None:
         return d["x"], d["y"]
+    if "ego_xy" in d:          # the description was generated from its ego-frame position (tilted ego poses)
+        return tuple(d["ego_xy"])
     dx, dy = d["x"] - ego["x"], d["y"] - ego["y"]
     c, s = math.cos(-ego.get("yaw", 0.0)), math.sin(-ego.get("yaw", 0.0))
     return c * dx - s * dy, s * dx + c * dy
